@@ -411,3 +411,121 @@ def expand(func: ast.AST, node: ast.AST, depth: int = 3) -> ast.AST:
                 return X(self.d - 1).visit(_copy.deepcopy(defs[n.id][0]))
             return n
     return X(depth).visit(_copy.deepcopy(node))
+
+
+_FRESH_COPIERS = {"deepcopy", "copy.deepcopy"}
+_SHALLOW_COPIERS = {"copy", "copy.copy"}
+
+
+def param_container_mutations(func: ast.AST, params: List[str]) -> List[Tuple[str, str]]:
+    """stores that change the caller's object graph reachable from a parameter: `p.attr = v`, `p.attr[k] = v`, `del p.attr[k]`,
+    `p.attr.<mutating method>()`, directly or through a local alias (`x = p`, `x = p.attr`) or a SHALLOW copy (`x = copy(p)`:
+    x.attr is still the caller's container, so `x.attr[k] = v` mutates it while `x.attr = v` does not).  deepcopy() is fresh.
+    Column stores into a frame held by the object (`p.attr[k]['col'] = ...`) are not reported.  Returns (what, statement text)."""
+    obj_alias: Dict[str, str] = {p: f"parameter {p}" for p in params}          # name -> the caller's object itself
+    shallow: Dict[str, str] = {}                                               # name -> shallow copy of the caller's object
+    cont_alias: Dict[str, str] = {}                                            # name -> a container attribute of the caller's object
+    changed = True
+    while changed:
+        changed = False
+        for t, v, st in assignments(func):
+            if not isinstance(t, ast.Name) or t.id in params:
+                continue
+            cn = call_name(v) if isinstance(v, ast.Call) else None
+            if isinstance(v, ast.Name) and v.id in obj_alias and t.id not in obj_alias:
+                obj_alias[t.id] = obj_alias[v.id] + f" (alias {t.id})"
+                changed = True
+            elif cn in _SHALLOW_COPIERS and v.args and isinstance(v.args[0], ast.Name) and v.args[0].id in obj_alias and t.id not in shallow:
+                shallow[t.id] = f"shallow copy {t.id} of {obj_alias[v.args[0].id]}"
+                changed = True
+            elif isinstance(v, ast.Attribute) and isinstance(v.value, ast.Name) and (v.value.id in obj_alias or v.value.id in shallow) and t.id not in cont_alias:
+                cont_alias[t.id] = f"{v.value.id}.{v.attr} of {obj_alias.get(v.value.id) or shallow.get(v.value.id)} (alias {t.id})"
+                changed = True
+
+    def container(e) -> Optional[str]:
+        if isinstance(e, ast.Attribute) and isinstance(e.value, ast.Name):
+            if e.value.id in obj_alias:
+                return f"{e.value.id}.{e.attr} of {obj_alias[e.value.id]}"
+            if e.value.id in shallow:
+                return f"{e.value.id}.{e.attr} shared with the caller through the {shallow[e.value.id]}"
+        if isinstance(e, ast.Name) and e.id in cont_alias:
+            return cont_alias[e.id]
+        return None
+    out = []
+    for n in ast.walk(func):
+        if isinstance(n, ast.Call) and isinstance(n.func, ast.Attribute) and n.func.attr in _MUT_METHODS:
+            d = container(n.func.value)
+            if d:
+                out.append((f"{n.func.attr}() on {d}", " ".join(ast.unparse(n).split())[:100]))
+        if isinstance(n, (ast.Assign, ast.AugAssign, ast.Delete)):
+            tgts = n.targets if isinstance(n, (ast.Assign, ast.Delete)) else [n.target]
+            flat = []
+            for t in tgts:
+                flat += list(t.elts) if isinstance(t, (ast.Tuple, ast.List)) else [t]
+            for t in flat:
+                if isinstance(t, ast.Subscript):
+                    d = container(t.value)
+                    if d:
+                        out.append((f"item store into {d}", " ".join(ast.unparse(n).split())[:100]))
+                elif isinstance(t, ast.Attribute) and isinstance(t.value, ast.Name) and t.value.id in obj_alias:
+                    out.append((f"attribute store {t.value.id}.{t.attr} on {obj_alias[t.value.id]}", " ".join(ast.unparse(n).split())[:100]))
+    return out
+
+
+_SCHEMA_ATTRS = {"columns", "dtypes", "shape", "names", "ndim"}
+
+
+def first_iteration_latches(func: ast.AST) -> List[Tuple[str, str]]:
+    """`for <targets> in ...:` loops in which a name is (re)assigned only under a guard that tests the same name for emptiness / None and the
+    assigned value is computed from the loop's own per-iteration data: the value of the FIRST iteration is silently reused by all later ones.
+    (A guard-protected value that does not depend on the loop variables is a hoisted constant and is not reported; schema reads such as
+    .columns / .dtypes are not row data.)  Returns (name, description)."""
+    out = []
+    for loop in [n for n in ast.walk(func) if isinstance(n, ast.For)]:
+        tvars = {x.id for x in ast.walk(loop.target) if isinstance(x, ast.Name)}
+        if not tvars:
+            continue
+        # names that depend on the loop variables (fixpoint over plain assignments in the body)
+        dep = set(tvars)
+
+        def data_names(e: ast.AST) -> Set[str]:
+            """names whose ROW DATA the expression reads (a bare `.columns` style read is not data)"""
+            skip = set()
+            for a in ast.walk(e):
+                if isinstance(a, ast.Attribute) and a.attr in _SCHEMA_ATTRS:
+                    for x in ast.walk(a.value):
+                        skip.add(id(x))
+            return {x.id for x in ast.walk(e) if isinstance(x, ast.Name) and id(x) not in skip}
+        body_assigns = []
+        for st in loop.body:
+            for t, v, s_ in assignments(st):
+                body_assigns.append((t, v, s_))
+        changed = True
+        while changed:
+            changed = False
+            for t, v, s_ in body_assigns:
+                names = [x.id for x in ast.walk(t) if isinstance(x, ast.Name) and isinstance(x.ctx, ast.Store)]
+                if data_names(v) & dep:
+                    for nm in names:
+                        if nm not in dep:
+                            dep.add(nm)
+                            changed = True
+        for iff in [n for st in loop.body for n in ast.walk(st) if isinstance(n, ast.If)]:
+            test, body, orelse = norm_if(iff)
+            negated = isinstance(iff.test, ast.UnaryOp) and isinstance(iff.test.op, ast.Not) and not iff.orelse
+            for t, v, s_ in [(t, v, s_) for st in iff.body for t, v, s_ in assignments(st)]:
+                if not isinstance(t, ast.Name):
+                    continue
+                nm = t.id
+                guards = (f"not {nm}", f"{nm} is None", f"len({nm}) == 0", f"{nm} == {{}}", f"{nm} == []", f"not len({nm})", f"{nm}.empty")
+                if not any(match(g, iff.test) is not None for g in guards):
+                    continue
+                if nm in {x.id for x in ast.walk(v) if isinstance(x, ast.Name)}:
+                    continue                                   # accumulator / self-update, not a latch
+                others = [1 for t2, v2, s2 in body_assigns if isinstance(t2, ast.Name) and t2.id == nm and s2 is not s_]
+                if others:
+                    continue
+                if data_names(v) & (dep - {nm}):
+                    out.append((nm, f"line {s_.lineno}: `{nm}` is computed from this iteration's data ({', '.join(sorted(data_names(v) & (dep - {nm})))}) only while it is still empty "
+                                    f"(`if {ast.unparse(iff.test)}`) and reused by every later iteration of `for {ast.unparse(loop.target)} in {ast.unparse(loop.iter)[:40]}`"))
+    return out
